@@ -103,6 +103,14 @@ func ruleFilterNames(c *eng.Ctx) {
 				}
 				return true
 			})
+			if !(found && dataArg) {
+				// the decoder may be reached through a forwarding layer (a backend object whose methods pass the
+				// arguments on): evaluate the dispatcher for this filter name on the SSA form
+				found, dataArg = decoderReached(c.P, long, want), true
+				if found {
+					found = decoderReached(c.P, short, want)
+				}
+			}
 			c.Check(found && dataArg, R, "core.decodeWithFilter#"+long+"->decoder", clauses[li].Pos(), "dispatches to "+want+"(data, …)", "clause for "+long+" does not call "+want+" on the incoming data")
 		}
 	}
@@ -308,9 +316,12 @@ func rulePredictorTable(c *eng.Ctx) {
 	}
 	// identity for 1; error otherwise
 	idOK, errOK := false, false
-	for _, r := range eng.Returns(fn) {
+	for _, r := range eng.Exits(fn) {
+		if len(r.Results) < 2 {
+			continue
+		}
 		if r.Results[0] == ssa.Value(fn.Params[0]) && eng.IsNilConst(r.Results[1]) {
-			if eng.GuardedBy(fn, r.Block(), func(f eng.Fact) bool { return cmpK(f, token.EQL, 1) }) {
+			if eng.ExitGuarded(fn, r, func(f eng.Fact) bool { return cmpK(f, token.EQL, 1) }) {
 				idOK = true
 			}
 		}
@@ -1248,4 +1259,68 @@ func (r *pngRow) atCall(call ssa.CallInstruction, role string) ssa.Value {
 		}
 	})
 	return out
+}
+
+// decoderReached: with the filter-name parameter of core.decodeWithFilter equal to name, control reaches a call that
+// hands the incoming data to the decoder `want` — directly, or through a function that only forwards its parameters.
+func decoderReached(p *eng.Prog, name, want string) bool {
+	fn := p.Func("core.decodeWithFilter")
+	if fn == nil {
+		return false
+	}
+	var nameP, dataP ssa.Value
+	for _, prm := range fn.Params {
+		switch t := prm.Type().Underlying().(type) {
+		case *types.Basic:
+			if t.Kind() == types.String && nameP == nil {
+				nameP = prm
+			}
+		case *types.Slice:
+			if dataP == nil {
+				dataP = prm
+			}
+		}
+	}
+	if nameP == nil || dataP == nil {
+		return false
+	}
+	// forwardsData: g passes its parameter k on as the first argument of want
+	forwardsData := func(g *ssa.Function) int {
+		for _, ci := range eng.Calls(g, false, func(string, ssa.CallInstruction) bool { return true }) {
+			if h := eng.StaticCallee(ci); h != nil && eng.FuncName(h) == want && len(ci.Common().Args) > 0 {
+				for k, prm := range g.Params {
+					if ci.Common().Args[0] == ssa.Value(prm) {
+						return k
+					}
+				}
+			}
+		}
+		return -1
+	}
+	target := func(in ssa.Instruction) bool {
+		ci, ok := in.(ssa.CallInstruction)
+		if !ok {
+			return false
+		}
+		g := eng.StaticCallee(ci)
+		if g == nil {
+			return false
+		}
+		args := ci.Common().Args
+		if eng.FuncName(g) == want {
+			return len(args) > 0 && args[0] == dataP
+		}
+		if g.Blocks == nil || !eng.InModule(g) {
+			return false
+		}
+		k := forwardsData(g)
+		if k < 0 {
+			return false
+		}
+		if ci.Common().IsInvoke() {
+			k-- // the receiver is not among the arguments of an interface call
+		}
+		return k >= 0 && k < len(args) && args[k] == dataP
+	}
+	return eng.StrReach(fn, []string{name}, func(v ssa.Value) bool { return v == nameP }, nil, target)[name]
 }
